@@ -30,6 +30,8 @@ type Case struct {
 	StrMargin bool `json:"margin_as_string,omitempty"`
 	// ECLevel (QR only): 0 = no ERROR_CORRECTION hint, 1..4 = L M Q H given together with the other hints
 	ECLevel int `json:"ec_level,omitempty"`
+	// NoHintAPI: no hints at all, and the call goes through Writer.EncodeWithoutHint
+	NoHintAPI bool `json:"encode_without_hint,omitempty"`
 }
 
 func marginHint(c Case) interface{} {
@@ -127,7 +129,13 @@ func check(raw json.RawMessage) error {
 				mod[y][x] = m.Get(x, y) == 1
 			}
 		}
-		bm, err2 := qrcode.NewQRCodeWriter().Encode(c.Content, gozxing.BarcodeFormat_QR_CODE, c.ReqW, c.ReqH, hints)
+		var bm *gozxing.BitMatrix
+		var err2 error
+		if c.NoHintAPI && len(hints) == 0 {
+			bm, err2 = qrcode.NewQRCodeWriter().EncodeWithoutHint(c.Content, gozxing.BarcodeFormat_QR_CODE, c.ReqW, c.ReqH)
+		} else {
+			bm, err2 = qrcode.NewQRCodeWriter().Encode(c.Content, gozxing.BarcodeFormat_QR_CODE, c.ReqW, c.ReqH, hints)
+		}
 		if err2 != nil {
 			return fmt.Errorf("writer failed: %v [%s]", err2, desc)
 		}
@@ -165,7 +173,12 @@ func check(raw json.RawMessage) error {
 				mod[y][x] = bare.Get(x, y)
 			}
 		}
-		bm, err := w.Encode(c.Content, gozxing.BarcodeFormat_DATA_MATRIX, c.ReqW, c.ReqH, nil)
+		var bm *gozxing.BitMatrix
+		if c.NoHintAPI {
+			bm, err = w.EncodeWithoutHint(c.Content, gozxing.BarcodeFormat_DATA_MATRIX, c.ReqW, c.ReqH)
+		} else {
+			bm, err = w.Encode(c.Content, gozxing.BarcodeFormat_DATA_MATRIX, c.ReqW, c.ReqH, nil)
+		}
 		if err != nil {
 			return fmt.Errorf("writer failed: %v [%s]", err, desc)
 		}
@@ -204,7 +217,12 @@ func check(raw json.RawMessage) error {
 		hints[gozxing.EncodeHintType_MARGIN] = marginHint(c)
 		q = c.Margin
 	}
-	bm, err := w.Encode(c.Content, sym.Format, c.ReqW, c.ReqH, hints)
+	var bm *gozxing.BitMatrix
+	if c.NoHintAPI && len(hints) == 0 {
+		bm, err = w.EncodeWithoutHint(c.Content, sym.Format, c.ReqW, c.ReqH)
+	} else {
+		bm, err = w.Encode(c.Content, sym.Format, c.ReqW, c.ReqH, hints)
+	}
 	if err != nil {
 		return fmt.Errorf("writer failed: %v [%s]", err, desc)
 	}
@@ -369,6 +387,9 @@ func TestCheck(t *testing.T) {
 			}
 			if w == "QR" && rapid.Bool().Draw(t, "withec") {
 				cs.ECLevel = rapid.IntRange(1, 4).Draw(t, "ec")
+			}
+			if cs.Margin < 0 && cs.ECLevel == 0 && rapid.Bool().Draw(t, "nohintapi") {
+				cs.NoHintAPI = true
 			}
 			nw, nh := natural(w, cs.Content, cs.Margin)
 			if nw == 0 {
